@@ -356,7 +356,7 @@ Definition used {A} (r : A * tape) : A * Z := (fst r, snd (snd r)).
 Definition M521 : Z := Eval vm_compute in 2 ^ 521 - 1.
 Definition gen_tape (M seed x : Z) : tape :=
   (fun i => let b := (seed + x) * (2 * i + 1) * 2654435761 + i in
-            (b * b + x * i) mod M, 0).
+            Z.land (Z.shiftr (b * b + x * i) 7) M, 0).
 Definition run_is_prime (M seed x : Z) := used (is_prime (gen_tape M seed x) x).
 Definition run_next_prime (fuel : nat) (M seed x : Z) := used (next_prime fuel (gen_tape M seed x) x).
 Definition run_prev_prime (fuel : nat) (M seed x : Z) := used (prev_prime fuel (gen_tape M seed x) x).
